@@ -69,9 +69,10 @@ NOINL void crumb_idx(Ctx const& c, std::string const& s, char const* op, Arr con
 }
 NOINL void cov(Ctx const& c, char const* op, std::uint64_t salt) { vf::cover(op, vf::mix(c.h, salt), c.nontrivial); }
 
-NOINL void judge_obs(Ctx const& c, Obs const& o, Expect const& x, std::uint64_t salt)
+NOINL void judge_obs(Ctx const& c, std::string const& s, char const* op, Obs const& o, Expect const& x, std::uint64_t salt)
 {
     Model const& m = x.m;
+    crumb_op(c, s, op); // divergences below are keyed by the operation that produced the mapping; the symptom names the observer
     for (std::size_t r = 0; r < m.R; ++r) { vf::eq_int("extents().extent", o.ext[r], m.e[r]); }
     cov(c, "extents()", salt);
     if (o.has_rss) {
@@ -177,7 +178,7 @@ NOINL void canonical(Ctx& c)
     {
         Obs o;
         observe<M, true, true, true>(c, s, m, o);
-        judge_obs(c, o, x, 1);
+        judge_obs(c, s, "mapping(extents)", o, x, 1);
         sweep<Idx>(c, s, "operator()(index_type...)", m, mod, offs);
         judge_sweep(c, "operator()(index_type...)", offs, mod, 1);
         if constexpr (std::is_same_v<L, etl::layout_left>) {
@@ -197,7 +198,7 @@ NOINL void canonical(Ctx& c)
         cov(c, "mapping()", 1);
         Obs o;
         observe<M, true, true, true>(c, s, d, o);
-        judge_obs(c, o, Expect{lname<L>::model(z, R), 1, 1}, 2);
+        judge_obs(c, s, "mapping()", o, Expect{lname<L>::model(z, R), 1, 1}, 2);
     }
     // copy, assignment
     {
@@ -210,9 +211,9 @@ NOINL void canonical(Ctx& c)
         cov(c, "operator=(mapping const&)", 1);
         Obs o1, o2;
         observe<M, true, true, true>(c, s, cp, o1);
-        judge_obs(c, o1, x, 3);
+        judge_obs(c, s, "mapping(mapping const&)", o1, x, 3);
         observe<M, true, true, true>(c, s, as, o2);
-        judge_obs(c, o2, x, 4);
+        judge_obs(c, s, "operator=(mapping const&)", o2, x, 4);
         crumb_op(c, s, "operator==");
         vf::eq_bool("operator==:copy", cp == m, true);
         cov(c, "operator==", 1);
@@ -225,7 +226,7 @@ NOINL void canonical(Ctx& c)
         cov(c, "mapping(mapping<OtherExtents>):->all-dynamic", 1);
         Obs o;
         observe<MD, true, true, true>(c, s, md, o);
-        judge_obs(c, o, x, 5);
+        judge_obs(c, s, "mapping(mapping<OtherExtents>):->all-dynamic", o, x, 5);
         sweep<Idx>(c, s, "mapping(mapping<OtherExtents>):->all-dynamic", md, mod, offs);
         judge_sweep(c, "operator()(index_type...)", offs, mod, 5);
         crumb_op(c, s, "operator==");
@@ -238,7 +239,7 @@ NOINL void canonical(Ctx& c)
         cov(c, "mapping(mapping<OtherExtents>):all-dynamic->this", 1);
         Obs o2;
         observe<M, true, true, true>(c, s, back, o2);
-        judge_obs(c, o2, x, 6);
+        judge_obs(c, s, "mapping(mapping<OtherExtents>):all-dynamic->this", o2, x, 6);
         sweep<Idx>(c, s, "mapping(mapping<OtherExtents>):all-dynamic->this", back, mod, offs);
         judge_sweep(c, "operator()(index_type...)", offs, mod, 6);
     }
@@ -264,7 +265,7 @@ NOINL void canonical(Ctx& c)
         cov(c, "mapping(other-layout::mapping):rank<=1", 1);
         Obs o;
         observe<M, true, true, true>(c, s, conv, o);
-        judge_obs(c, o, x, 7);
+        judge_obs(c, s, "mapping(other-layout::mapping):rank<=1", o, x, 7);
         sweep<Idx>(c, s, "mapping(other-layout::mapping):rank<=1", conv, mod, offs);
         judge_sweep(c, "operator()(index_type...)", offs, mod, 7);
     }
@@ -337,7 +338,7 @@ NOINL void strided(Ctx& c)
             Obs o;
             observe<M, false, true, false>(c, s, m, o);
             o.a_exh = M::is_always_exhaustive();
-            judge_obs(c, o, x, n * 16 + 1);
+            judge_obs(c, s, "mapping(extents,array<T,rank>)", o, x, n * 16 + 1);
             crumb_op(c, s, "strides()", ss.c_str());
             auto const st = m.strides();
             for (std::size_t r = 0; r < R; ++r) { vf::eq_int("strides()[r]", (LL)st[r], mod.st[r]); }
@@ -354,7 +355,7 @@ NOINL void strided(Ctx& c)
             cov(c, "mapping(extents,span<T,rank>)", n);
             Obs o;
             observe<M, false, true, false>(c, s, m2, o);
-            judge_obs(c, o, x, n * 16 + 2);
+            judge_obs(c, s, "mapping(extents,span<T,rank>)", o, x, n * 16 + 2);
             sweep<int>(c, s, "operator()(int...)", m2, mod, offs, ss);
             judge_sweep(c, "operator()(int...)", offs, mod, n * 16 + 2);
             sb.check("strides");
@@ -368,9 +369,9 @@ NOINL void strided(Ctx& c)
             cov(c, "operator=(mapping const&)", n);
             Obs o1, o2;
             observe<M, false, true, false>(c, s, cp, o1);
-            judge_obs(c, o1, x, n * 16 + 3);
+            judge_obs(c, s, "mapping(mapping const&)", o1, x, n * 16 + 3);
             observe<M, false, true, false>(c, s, as, o2);
-            judge_obs(c, o2, x, n * 16 + 4);
+            judge_obs(c, s, "operator=(mapping const&)", o2, x, n * 16 + 4);
         }
     }
     if (mods.empty() && vf::want_sample("stride:skipped")) { vf::sample("stride:skipped", "no stride set representable in %s for E=<%s> shape %s", IDXN, c.p->name, c.desc.c_str()); }
@@ -418,7 +419,7 @@ NOINL void transpose_one(Ctx& c, Model const& nested, typename L::template mappi
     cov(c, "mapping(nested_mapping)", 1);
     Obs o;
     observe<M, HasRss, false, false>(c, s, m, o);
-    judge_obs(c, o, Expect{mod, -1, -1}, 1);
+    judge_obs(c, s, "mapping(nested_mapping)", o, Expect{mod, -1, -1}, 1);
     // the model's span is that of the nested mapping (same element set)
     sweep<Idx>(c, s, "operator()(i,j)", m, mod, offs, ss);
     judge_sweep(c, "operator()(i,j)", offs, mod, 1);
